@@ -871,7 +871,7 @@ pub fn run(tier: &str, seed: u64, widen: bool) -> Report {
     let thorough = tier == "thorough";
     let mut rng = Rng::new(seed);
     let mut cases: Vec<Case> = vec![];
-    let depth = if thorough || widen { 2 } else { 1 };
+    let depth = if thorough || widen { 3 } else { 2 };
     // exhaustive: every kind chain of reference depth ≤ depth, in every site, in main and in a generic
     for site in [Site::Len, Site::Disc, Site::CtArg] {
         for generic in [false, true] {
